@@ -308,6 +308,11 @@ class Interp:
                 return self.block(e, env, depth) if e.k == "block" else self.ev(e, env, depth)
             return None
         if k == "block":
+            if n.get("label"):
+                try:
+                    return self.block(n, env, depth)
+                except _Break as b:
+                    return b.v
             return self.block(n, env, depth)
         if k == "return":
             raise _Return(self.ev(n["e"], env, depth) if n.get("e") is not None else None)
